@@ -114,6 +114,13 @@ struct Tr<Rec40> {
 
 //! stateful comparator by key only (direction is run-time state: a merge that
 //! default-constructs its comparator instead of using the one passed is caught)
+//! comparison budget: a merge that stops making progress (possible in the bubble merge, whose loops
+//! have no other exit) ends the case as *inconclusive* (DESIGN §3.5: step bounds are never violations)
+//! instead of blocking a worker until the wall-clock case timeout
+struct StepBound {};
+inline long g_cmp_calls = 0;
+inline long g_cmp_budget = 0;
+
 template <class E>
 struct DirCmp {
     bool desc;
@@ -122,6 +129,7 @@ struct DirCmp {
     DirCmp() : desc(false), salt(0) {}
     bool operator()(const E& a, const E& b) const {
         if (salt != 0x5a17) pbt::fail("C05/comparator-lost", "merge used a comparator that is not a copy of the one passed");
+        if (++g_cmp_calls > g_cmp_budget) throw StepBound();
         return desc ? Tr<E>::key(b) < Tr<E>::key(a) : Tr<E>::key(a) < Tr<E>::key(b);
     }
 };
@@ -388,7 +396,17 @@ void run_case(pbt::Source& src, const Cfg& cfg, Cmp cmp) {
     }
 
     // ---- the call under test
-    It ret = call_merge<Stable>(cfg, omit_cmp, seqs.begin(), seqs.end(), target, length, cmp);
+    g_cmp_calls = 0;
+    g_cmp_budget = 64 * ((long)total + k + 1) * (k + 1) + 10000; // >> k comparisons per element + set-up
+    It ret;
+    try {
+        ret = call_merge<Stable>(cfg, omit_cmp, seqs.begin(), seqs.end(), target, length, cmp);
+    } catch (const StepBound&) {
+        PBT_LOG("  comparison budget " << g_cmp_budget << " exhausted: merge does not terminate in reasonable time (inconclusive)\n");
+        pbt::label("step_bound_hit");
+        pbt::inconclusive();
+        return;
+    }
 
     // ---- oracle
     PBT_CHECK(ret - target == length, "C05/return",
